@@ -158,34 +158,100 @@ def coq_makefile():
         sh(["coq_makefile", "-f", "_CoqProject", "-o", "Makefile"], cwd=COQ, check=True)
 
 
-def coq_build(targets, timeout=3000):
-    """targets: list of .v paths relative to coq/ (their .vo is built with deps). Returns (ok, log)."""
-    with Lock("coq"):
-        coq_makefile()
-        vos = [t[:-2] + ".vo" for t in targets]
-        rc, out = sh(["timeout", str(timeout), "make", "-j16", "-k"] + vos, cwd=COQ, timeout=timeout + 60)
-        return rc == 0, out
+_DEPS = {}
+
+
+def direct_deps(rel):
+    """direct AM dependencies (as .v paths relative to coq/) of one file, via coqdep on that file alone."""
+    st = os.stat(os.path.join(COQ, rel)).st_mtime
+    if rel in _DEPS and _DEPS[rel][0] == st:
+        return _DEPS[rel][1]
+    rc, out = sh(["coqdep", "-Q", "theories", "AM", rel], cwd=COQ)
+    ds = []
+    for line in out.split("\n"):
+        m = re.match(r"(\S+)\.vo\s.*?:\s*(.*)$", line)
+        if m and m.group(1) + ".v" == rel:
+            ds = [d[:-3] + ".v" for d in m.group(2).split() if d.endswith(".vo") and d.startswith("theories/")
+                  and d[:-3] + ".v" != rel]
+    _DEPS[rel] = (st, ds)
+    return ds
 
 
 def closure(target):
-    """.v files (relative to coq/) in the dependency closure of target, via coqdep."""
-    rc, out = sh(["coqdep", "-Q", "theories", "AM"] + vfiles(), cwd=COQ)
-    deps = {}
-    for line in out.split("\n"):
-        m = re.match(r"(\S+)\.vo\s.*?:\s*(.*)$", line)
-        if not m:
-            continue
-        v = m.group(1) + ".v"
-        ds = [d[:-3] + ".v" for d in m.group(2).split() if d.endswith(".vo") and d.startswith("theories/")]
-        deps[v] = ds
+    """.v files (relative to coq/) in the dependency closure of target (per-file coqdep: an unrelated broken
+    file elsewhere in the tree does not matter)."""
     seen, todo = set(), [target]
     while todo:
         x = todo.pop()
-        if x in seen:
+        if x in seen or not os.path.exists(os.path.join(COQ, x)):
             continue
         seen.add(x)
-        todo.extend(deps.get(x, []))
+        todo.extend(direct_deps(x))
     return sorted(seen)
+
+
+def _vo(rel):
+    return os.path.join(COQ, rel[:-2] + ".vo")
+
+
+def coq_build(targets, timeout=3000):
+    """Full .vo build (coqc, no -vos) of the dependency closure of the targets. Returns (ok, log).
+    Equivalent to `make <targets>.vo` of the coq_makefile project, but restricted to the closure."""
+    files = set()
+    for t in targets:
+        if not os.path.exists(os.path.join(COQ, t)):
+            return False, 'File "./%s", line 0: Error: missing file' % t
+        files.update(closure(t))
+    order, mark = [], {}
+
+    def visit(f):
+        if mark.get(f):
+            return
+        mark[f] = 1
+        for d in direct_deps(f):
+            if d in files:
+                visit(d)
+        order.append(f)
+    for f in sorted(files):
+        visit(f)
+
+    def stale(f, rebuilt):
+        vo = _vo(f)
+        if not os.path.exists(vo):
+            return True
+        mt = os.path.getmtime(vo)
+        if mt < os.path.getmtime(os.path.join(COQ, f)):
+            return True
+        for d in direct_deps(f):
+            if d in rebuilt or (os.path.exists(_vo(d)) and os.path.getmtime(_vo(d)) > mt):
+                return True
+        return False
+    log = []
+    if not any(stale(f, set()) for f in order):
+        return True, ""
+    with Lock("coq"):
+        rebuilt, failed = set(), set()
+        t_end = time.time() + timeout
+        for f in order:
+            if any(d in failed for d in direct_deps(f)):
+                failed.add(f)
+                continue
+            if not stale(f, rebuilt):
+                continue
+            left = max(10, int(t_end - time.time()))
+            rc, out = sh(["timeout", str(left), "coqc", "-Q", "theories", "AM", f], cwd=COQ, timeout=left + 30)
+            log.append("COQC %s\n%s" % (f, out))
+            if rc != 0:
+                failed.add(f)
+                try:
+                    os.remove(_vo(f))
+                except OSError:
+                    pass
+                if rc == 124:
+                    log.append('File "./%s", line 0: Error: coqc timed out' % f)
+            else:
+                rebuilt.add(f)
+        return not failed, "\n".join(log)
 
 
 STMT = re.compile(r"^\s*(?:Local\s+|Global\s+|#\[[^\]]*\]\s*)*(Theorem|Lemma|Corollary|Example|Fact|Remark|Proposition)\s+([A-Za-z_][A-Za-z0-9_']*)", re.M)
@@ -339,11 +405,15 @@ def check(pid, tier, replay=None):
     if rc != 0:
         broken.append("translator genconsts failed: " + out.strip()[-400:])
     target = "theories/Properties/%s.v" % pid
-    hits = forbidden_scan()
-    if hits:
-        broken.append("forbidden declarations: " + "; ".join(hits[:5]))
     ok, log = coq_build([target])
     files = closure(target)
+    runmods = cfg.get("run_modules", ["theories/Run/%sRun.v" % pid])
+    scan = set(files)
+    for rm_ in runmods:
+        scan.update(closure(rm_))
+    hits = forbidden_scan(sorted(scan))
+    if hits:
+        broken.append("forbidden declarations: " + "; ".join(hits[:5]))
     nobl, names = count_obligations(files)
     discharged = nobl
     assum = {}
@@ -362,7 +432,6 @@ def check(pid, tier, replay=None):
         for b in bad:
             broken.append("assumptions: " + b)
     # the Run module must be built for the correspondence
-    runmods = cfg.get("run_modules", ["theories/Run/%sRun.v" % pid])
     ok_run, log_run = coq_build(runmods)
     if not ok_run:
         broken.append("model Run module does not build: " + log_run[-400:])
